@@ -20,7 +20,8 @@ RULE = ("two invocations on one client (or a client and its clone) under a contr
         ' ; header entries added by a marshalled plugin stay with their own request (sequential, two in flight, clone)'
         ' ; encoded string arrays next to string replies (one generated class name, two kinds of object)'
         ' ; an endpoint set on a clone stays with the clone'
-        ' ; multi-part replies in flight')
+        ' ; multi-part replies in flight'
+        ' ; first calls of a fresh client in flight; a clone over a transport with a back-referencing helper')
 ASSUMPTIONS = ["preemption points are Python trace events (function call/return, line); switches inside C code "
                "(expat callbacks aside) are not exercised",
                "the scheduler serialises the threads itself, so GIL switch timing is not what is being sampled"]
